@@ -111,17 +111,21 @@ type prog struct {
 
 var progs = map[string]*prog{}
 
-func progFor(decl []int) (*prog, error) {
+func progFor(decl []int, how string) (*prog, error) {
 	parts := make([]string, len(decl))
 	for i, b := range decl { // half units
 		parts[i] = strconv.FormatFloat(float64(b)/2, 'g', -1, 64)
 	}
 	key := strings.Join(parts, ", ")
-	if p, ok := progs[key]; ok {
+	if p, ok := progs[how+key]; ok {
 		return p, nil
 	}
-	// two ways in: a float-typed observation (fset) and an int-typed one (iset -> datum.SetInt on the buckets)
-	src := "histogram h by k buckets " + key + "\n/^f (\\S+) (\\S+)$/ {\n  h[$1] = float($2)\n}\n/^i (\\S+) (-?\\d+)$/ {\n  h[$1] = $2\n}\n"
+	// two ways in, one program each (a metric assigned a float anywhere is Float-typed everywhere): a float-typed
+	// observation (fset -> SetFloat) and an int-typed one (iset -> datum.SetInt on the buckets)
+	src := "histogram h by k buckets " + key + "\n/^f (\\S+) (\\S+)$/ {\n  h[$1] = float($2)\n}\n"
+	if how == "i" {
+		src = "histogram h by k buckets " + key + "\n/^i (\\S+) (-?\\d+)$/ {\n  h[$1] = $2\n}\n"
+	}
 	c, err := compiler.New()
 	if err != nil {
 		return nil, err
@@ -137,7 +141,7 @@ func progFor(decl []int) (*prog, error) {
 	if err := p.store.Add(p.m); err != nil {
 		return nil, err
 	}
-	progs[key] = p
+	progs[how+key] = p
 	return p, nil
 }
 
@@ -184,7 +188,17 @@ var (
 )
 
 func run(n int, c *tcase, expo bool) (g got, why string, err error) {
-	p, err := progFor(c.Decl)
+	// every other case observes through the int-typed program, provided all its values are whole numbers
+	how := "f"
+	if n%2 == 1 {
+		how = "i"
+		for _, o := range c.Obs {
+			if o == negInf || o == posInf || o == nan || o%2 != 0 {
+				how = "f"
+			}
+		}
+	}
+	p, err := progFor(c.Decl, how)
 	if err != nil {
 		return g, "", err
 	}
@@ -197,10 +211,6 @@ func run(n int, c *tcase, expo bool) (g got, why string, err error) {
 	}
 	var d datum.Datum
 	for i, o := range c.Obs {
-		how := "f"
-		if n%2 == 1 && o != negInf && o != posInf && o != nan && o%2 == 0 { // a whole number, every other case: as an int
-			how = "i"
-		}
 		p.v.ProcessLogLine(ctx, logline.New(ctx, "c21", how+" "+key+" "+text(o)))
 		p.m.RLock()
 		lv := p.m.FindLabelValueOrNil([]string{key})
